@@ -102,7 +102,13 @@ func runMutant(dir, prop, name string) int {
 				keys = append(keys, "floor|"+n)
 			}
 		}
-		b, _ := json.Marshal(map[string]any{"failing": keys})
+		hit := false
+		for _, k := range keys {
+			if strings.Contains(k, m.Expect) {
+				hit = true
+			}
+		}
+		b, _ := json.Marshal(map[string]any{"failing": keys, "expect": m.Expect, "detected": hit})
 		fmt.Println(string(b))
 		return 0
 	}
